@@ -41,7 +41,69 @@ class P(core.Prop):
     assumptions = ['hostnames for reverse-resolve that inet_aton would accept although ipaddress rejects them '
                    '(e.g. "1.2.3") are outside the generated envelope']
 
+    def run_route(self, case):
+        """the public entry points that hand (host, port) to the SOCKS client must make it send the very bytes the
+        machine sends for CONNECT to that target: TorSocksEndpoint, TorClientEndpoint with an explicit SOCKS endpoint,
+        TorClientEndpoint guessing 9050/9150, and the web agent's endpoint factory"""
+        from twisted.internet import defer
+        from twisted.internet.interfaces import IStreamClientEndpoint
+        from twisted.internet.protocol import Factory, Protocol
+        from twisted.test.proto_helpers import StringTransport
+        from zope.interface import implementer
+        import txtorcon.endpoints as eps
+        from txtorcon import socks
+        route = case['route']
+        trs = []
+
+        @implementer(IStreamClientEndpoint)
+        class FakeSocksPort(object):
+            def __init__(self, *a, **kw):
+                pass
+
+            def connect(self, factory):
+                proto = factory.buildProtocol(None)
+                tr = StringTransport()
+                trs.append((tr, proto))
+                proto.makeConnection(tr)
+                return defer.succeed(proto)
+
+        fac = Factory.forProtocol(Protocol)
+        exc = None
+        saved = eps.TCP4ClientEndpoint
+        try:
+            if route == 'socksep':
+                ep = socks.TorSocksEndpoint(FakeSocksPort(), case['host'], case['port'])
+            elif route == 'client':
+                ep = eps.TorClientEndpoint(case['host'], case['port'], socks_endpoint=FakeSocksPort(), reactor=object())
+            elif route == 'guess':
+                eps.TCP4ClientEndpoint = FakeSocksPort
+                ep = eps.TorClientEndpoint(case['host'], case['port'], reactor=object())
+            else:
+                from twisted.web.client import URI
+                from txtorcon.web import _AgentEndpointFactoryUsingTor
+                f = _AgentEndpointFactoryUsingTor(object(), FakeSocksPort(), None)
+                ep = f.endpointForURI(URI.fromBytes(('http://%s:%d/x' % (case['host'], case['port'])).encode('ascii')))
+            d = ep.connect(fac)
+            d.addErrback(lambda f: None)
+        except Exception as e:
+            exc = type(e).__name__
+        finally:
+            eps.TCP4ClientEndpoint = saved
+        if not trs:
+            return {'greet': '050100', 'wrote': '', 'exc': exc or 'noconnect'}
+        tr, proto = trs[0]
+        greet = tr.value()
+        tr.clear()
+        try:
+            for ch in case['chunks']:
+                proto.dataReceived(bytes.fromhex(ch))
+        except Exception as e:
+            exc = type(e).__name__
+        return {'greet': greet.hex(), 'wrote': tr.value().hex(), 'exc': exc}
+
     def run_impl(self, case):
+        if case.get('route'):
+            return self.run_route(case)
         from txtorcon import socks
         writes = []
         try:
@@ -81,8 +143,8 @@ class P(core.Prop):
 
     def kind(self, case, obs):
         sel = ''.join(case['chunks']).startswith('0500')
-        return '%s/%s/%s%s' % (case['ty'], classify(case['host'])[0], 'refused' if obs['exc'] else 'sent',
-                               '' if sel else '/not-selected')
+        return '%s/%s/%s%s%s' % (case['ty'], classify(case['host'])[0], 'refused' if obs['exc'] else 'sent',
+                                 '' if sel else '/not-selected', ('/via-' + case['route']) if case.get('route') else '')
 
     def nontrivial(self, case, obs):
         return len(case['host']) > 0
@@ -132,7 +194,15 @@ class P(core.Prop):
             chunks = rng.choice([['0500'], ['0500'], ['0500'], ['05', '00'], ['05', '00'], ['0500'],
                                  rng.choice([['0502'], ['05', '02'], ['05ff'], ['0400'], ['05'], ['0501'], ['0002'],
                                              ['05', 'ff'], ['0600'], []])])
-            out.append({'ty': ty, 'host': host, 'port': port, 'chunks': chunks})
+            c = {'ty': ty, 'host': host, 'port': port, 'chunks': chunks}
+            if ty == 'CONNECT' and 0 <= port < 65536 and rng.random() < 0.3:
+                # the same target through a public entry point
+                routes = ['socksep', 'client', 'guess']
+                if kind in ('host', 'v4') and 0 < len(host) <= 255 and all(ch.isalnum() or ch in '-.' for ch in host) \
+                        and host.strip('-.') == host and '..' not in host:
+                    routes.append('web')
+                c['route'] = rng.choice(routes)
+            out.append(c)
         return out
 
     def exhaustive(self, tier):
